@@ -77,6 +77,11 @@ CHECKS = {
             "Every shape of a catalogue of misbehaving-but-documented test bodies is run under every approved set through Example.run_inline and under a slice through real pytest sessions; any exception escaping the finish phase, INTERNALERROR or unparsable result is a violation.",
             "63 shapes in mc/checks/c18.py (failing/raising tests, never-compared snapshots, inner snapshots under replaced/deleted/aligned parents, raising comparisons, container-end layouts); `in`/[k] only on list/dict displays.",
             "DESIGN.md 5/C18"),
+    "C10": ("exploration",
+            "bounded-exhaustive enumeration of containers mixing managed and user-controlled slots (10 slot kinds, n <= 3, 7 container shapes) x observed shapes x approved sets, plus star-expression containers; verbatim-survival oracle on independently located source segments",
+            "Every placement of Is(), f-strings and inner snapshot() among managed slots, for every observed length change and approved set, is rewritten by the real code; the unmanaged source segments (located with ast, not asttokens) must survive verbatim as a subsequence, inner snapshots change only through their own approved change, starred containers survive verbatim, managed siblings are repaired.",
+            "dirty-equals absent; inner snapshots are compared positionally by the container (scope note in DESIGN.md C10).",
+            "DESIGN.md 5/C10"),
 }
 
 NOT_APPLICABLE = {
